@@ -57,6 +57,41 @@ fn check_raw32(b: &[u8; 32], st: &mut Stats) -> Result<(), String> {
         if a == other || a == NodeId::new(&other) {
             return Err("equal to a different value".into());
         }
+        // equality with byte arrays and other ids is byte-wise equality: structured relatives of the value
+        // (the same mask applied at two offsets 8/16/24 apart, two bytes swapped, rotations by 1/8/16,
+        // complement, reversal, single bits) are equal to it exactly when the bytes are
+        let mut rel: Vec<[u8; 32]> = Vec::new();
+        for (i, j) in [(3usize, 19usize), (0, 8), (7, 31), (5, 13), (1, 2), (0, 24), (15, 16)] {
+            for m in [0x01u8, 0x80, 0xff, b[i] ^ b[j]] {
+                let mut x = *b;
+                x[i] ^= m;
+                x[j] ^= m;
+                rel.push(x);
+            }
+            let mut x = *b;
+            x.swap(i, j);
+            rel.push(x);
+        }
+        for r in [1usize, 8, 16, 24, 31] {
+            let mut x = *b;
+            x.rotate_left(r);
+            rel.push(x);
+        }
+        rel.push(b.map(|v| !v));
+        let mut rv = *b;
+        rv.reverse();
+        rel.push(rv);
+        for bit in 0..256usize {
+            let mut x = *b;
+            x[bit / 8] ^= 1 << (bit % 8);
+            rel.push(x);
+        }
+        for x in &rel {
+            let same = x == b;
+            if (a == *x) != same || (a == NodeId::new(x)) != same || (NodeId::new(x) == *b) != same {
+                return Err(format!("== with the related value {} is {} but byte-wise equality is {same}", hex(x), a == *x));
+            }
+        }
         // a serialisation that fails in the writer must not affect the next one
         let mut small = [0u8; 10];
         if serde_json::to_writer(&mut small[..], &a).is_ok() {
